@@ -172,6 +172,32 @@ def native_holds(spec, obs, tree, scenario):
             if m is None:
                 return False
             return m.get(spec["field"]) == spec["value"]
+    if k == "list_agrees":
+        # native: the listing holds exactly one entry per key that lookup finds, equal to the lookup's
+        lo = obs[spec["list_step"]] if spec["list_step"] < len(obs) else None
+        if not lo or lo.get("outcome") != "ok" or "list" not in lo.get("value", {}):
+            return False
+        items = lo["value"]["list"]
+        if any("err" in it for it in items):
+            return False
+        listed = {}
+        for it in items:
+            listed.setdefault(it["ok"]["key"], []).append(it["ok"])
+        for key, st in spec["lookups"].items():
+            o = obs[st] if st < len(obs) else None
+            if not o or o.get("outcome") != "ok":
+                return None
+            m = o["value"].get("meta")
+            got = listed.get(key, [])
+            if m is None:
+                if got:
+                    return False
+            else:
+                if len(got) != 1 or got[0] != m:
+                    return False
+        if spec.get("exact_keys") is not None and set(listed) != set(spec["exact_keys"]):
+            return False
+        return True
     if k == "concat_eq":
         total = b""
         for i in spec["steps"]:
